@@ -78,3 +78,46 @@ pub fn latin1_file(case: &Value) -> Value {
     }
     json!({"lines": lines})
 }
+
+/// {"text": [...]} -> shape of the parse result (with a watchdog: {"timeout": true} if the parser does not return)
+pub fn parse(case: &Value) -> Value {
+    use std::sync::mpsc;
+    let text = cps_to_string(&case["text"]);
+    let (tx, rx) = mpsc::channel();
+    std::thread::Builder::new()
+        .stack_size(64 << 20)
+        .spawn(move || {
+            let r = std::panic::catch_unwind(|| parse_inner(&text));
+            let _ = tx.send(r.unwrap_or_else(|_| json!({"panic": "parser panicked"})));
+        })
+        .unwrap();
+    match rx.recv_timeout(std::time::Duration::from_secs(case["timeout_s"].as_u64().unwrap_or(20))) {
+        Ok(v) => v,
+        Err(_) => {
+            // the parser thread cannot be cancelled: report and leave the process
+            println!("{}", json!({"timeout": true}));
+            std::process::exit(0);
+        }
+    }
+}
+
+fn parse_inner(text: &str) -> Value {
+    use vhdl_lang::{Source, VHDLParser, VHDLStandard};
+    let parser = VHDLParser::new(VHDLStandard::default());
+    let source = Source::inline(std::path::Path::new("verif_native.vhd"), text);
+    let mut diagnostics = Vec::new();
+    let file = parser.parse_design_source(&source, &mut diagnostics);
+    let units: Vec<Value> = file
+        .design_units
+        .iter()
+        .map(|(tokens, _unit)| {
+            let toks: Vec<Value> = tokens.iter().map(|t| json!([pos(t.pos.range.start), pos(t.pos.range.end)])).collect();
+            json!({"tokens": toks})
+        })
+        .collect();
+    let diags: Vec<Value> = diagnostics
+        .iter()
+        .map(|d| json!({"start": pos(d.pos.range.start), "end": pos(d.pos.range.end), "message": d.message}))
+        .collect();
+    json!({"units": units, "diagnostics": diags})
+}
